@@ -150,7 +150,7 @@ func (a *archetype) Remove(index uint32) bool {
 	old := a.len - 1
 
 	if index != old {
-		for _, id := range a.node.Ids {
+		for i, id := range a.node.Ids {
 			lay := a.getLayout(id)
 			size := lay.itemSize
 			if size == 0 {
@@ -158,7 +158,7 @@ func (a *archetype) Remove(index uint32) bool {
 			}
 			src := unsafe.Add(lay.pointer, old*size)
 			dst := unsafe.Add(lay.pointer, index*size)
-			a.copy(src, dst, size)
+			a.copyComponent(a.node.pointerTypes[i], src, dst, size)
 		}
 	}
 
@@ -185,6 +185,10 @@ func (a *archetype) Zero(index uint32, id ID) {
 		return
 	}
 	dst := unsafe.Add(lay.pointer, index*size)
+	if tp := a.pointerType(id); tp != nil {
+		reflect.NewAt(tp, dst).Elem().SetZero()
+		return
+	}
 	a.copy(a.node.zeroPointer, dst, size)
 }
 
@@ -221,7 +225,7 @@ func (a *archetype) Set(index uint32, id ID, comp interface{}) unsafe.Pointer {
 	rValue := reflect.ValueOf(comp)
 
 	src := rValue.UnsafePointer()
-	a.copy(src, dst, size)
+	a.copyComponent(a.pointerType(id), src, dst, size)
 	return dst
 }
 
@@ -234,7 +238,7 @@ func (a *archetype) SetPointer(index uint32, id ID, comp unsafe.Pointer) unsafe.
 		return dst
 	}
 
-	a.copy(comp, dst, size)
+	a.copyComponent(a.pointerType(id), comp, dst, size)
 	return dst
 }
 
@@ -328,6 +332,23 @@ func (a *archetype) UpdateStats(node *stats.Node, stats *stats.Archetype, reg *c
 	stats.Size = int(a.Len())
 	stats.Capacity = cap
 	stats.Memory = memory
+}
+
+// pointerType returns the type of a component if it contains pointers, and nil otherwise.
+func (a *archetype) pointerType(id ID) reflect.Type {
+	idx, _ := a.indices.Get(id.id)
+	return a.node.pointerTypes[idx]
+}
+
+// copyComponent copies a component from one pointer to another.
+// Components that contain pointers are copied as typed values,
+// so that the garbage collector is aware of the pointers being moved.
+func (a *archetype) copyComponent(tp reflect.Type, src, dst unsafe.Pointer, itemSize uint32) {
+	if tp != nil {
+		reflect.NewAt(tp, dst).Elem().Set(reflect.NewAt(tp, src).Elem())
+		return
+	}
+	a.copy(src, dst, itemSize)
 }
 
 // copy from one pointer to another.
